@@ -20,6 +20,7 @@ replay: every finished docstring is rendered and (i) its de-prompted source,
 """
 import contextlib
 import io
+import re
 import sys
 import warnings
 
@@ -83,6 +84,7 @@ def deprompt(case, lines):
 
 
 _PREV = {}
+_ADDR = re.compile(r'0x[0-9a-fA-F]+')
 
 
 def extra(case, lines, rot):
@@ -120,7 +122,9 @@ def extra(case, lines, rot):
                 exec(code, nsref)
     except Exception as ex:
         raise common.MachineryError('reference execution of a generated program failed: %r\n%s' % (ex, src))
-    if Tref != case['runset']:
+    # (a coroutine object that nobody awaits is created by its statement, but its body - which would record the id - never runs)
+    unawaited = {sid for sid, k, body in _bodies(case, lines) if body.startswith('ap(')}
+    if Tref != [s_ for s_ in case['runset'] if s_ not in unawaited]:
         raise common.MachineryError('reference trace %r differs from the specification run set %r\n%s' % (Tref, case['runset'], text))
     ref_out = buf.getvalue()
     ref_bind = _bindings(nsref, helper_keys)
@@ -145,9 +149,9 @@ def extra(case, lines, rot):
             sys.stdout = old
     if summary['failed']:
         bad.append(('result', 'no failure', repr(summary['exc_info'][1])[:200]))
-    if T != case['runset']:
-        bad.append(('executed_statements', case['runset'], T))
-    total = ''.join(dt.logged_stdout[i] for i in sorted(dt.logged_stdout))
+    if T != Tref:                     # (Tref is the specification's run set, checked above)
+        bad.append(('executed_statements', Tref, T))
+    total = _ADDR.sub('0x', ''.join(dt.logged_stdout[i] for i in sorted(dt.logged_stdout)))
     if sink.getvalue() != '':
         bad.append(('stdout_leak_outside_capture', '', sink.getvalue()))
     # per part: the statements whose first line lies in the part
@@ -166,6 +170,8 @@ def extra(case, lines, rot):
             exp_total += exp
             exp_plain += ''.join(_stmt_output(case, s, lines) for s in sids if s in enabled)
             got = dt.logged_stdout.get(px)
+            if isinstance(got, str):
+                got = _ADDR.sub('0x', got)
             if px in dt.logged_stdout:
                 if got != exp:
                     bad.append(('stdout_part%d' % px, exp, got))
@@ -195,6 +201,9 @@ def _stmt_output(case, sid, lines, mode='exec'):
     whole = '\n'.join(body for s, k, body in _bodies(case, lines) if s == sid and k != 'bare')
     o = 'o%d' % sid
     out = o + '\n'
+    if whole.startswith('ap('):
+        # an expression whose VALUE is a coroutine object that nobody awaits: its body never runs (the REPL echoes the object)
+        return '<coroutine object make_namespace.<locals>.ap at 0x>\n' if mode == 'single' else ''
     for q in ("'''", '"""'):
         if q + o in whole:
             a = whole.index(q) + 3
@@ -217,6 +226,9 @@ def sig(info):
 def run(tier):
     out = common.Outcome('C01', tier)
     parselib.self_check_templates()
+    # an expression statement whose value is a coroutine object (an `async def` called without await): creating it runs nothing
+    parselib.EXTRA['expr'] = [["ap({k}, '{o}')"]]
+    warnings.filterwarnings('ignore', message='coroutine .* was never awaited')      # (that is the point of the template)
     out.rule = ('every program of <= N building blocks over C01_Blocks (46 block kinds) in DocParse.tla; one case per finished docstring, '
                 'a fifth of them also tab-indented / with extra common indentation')
     for blocks, n, limit in BOUNDS[tier]:
